@@ -883,7 +883,7 @@ func TestVerifC42Malformed(t *testing.T) {
 	c.Rule("for decoders brought to a PRNG-chosen state (table size 16..2048, 0..600 prior votes) the next stateful frame is mutated: every strict prefix, every one-byte extension, every value of both header bytes, PRNG single-byte mutations at every offset, forged references (sender/key table ids pointing at empty, evicted, last-valid and out-of-range slots; proposal-window indices beyond the live size; round deltas at lastRnd 0 and MaxUint64); the same prefix/mutation treatment for stateless frames (StatelessDecoder) and for msgpack votes (StatelessEncoder). Each mutant runs against a clone of the state. No panic allowed; a mutant decoded successfully by both layers must yield bytes a fresh StatelessEncoder accepts and reproduces. distinct = (lane, table size, outcome, mutated offset class) || [noncanonical, observation only] canonical votes re-encoded non-canonically (rawVote / proposalValue keys permuted, a key repeated, integers widened to a longer msgpack form, explicit zero period/step) are given to the StatelessEncoder and, if accepted, to the stateful pair; the exact round-trip is demanded only of the canonical control of each case; outcomes of the variants are counted and reported as observations")
 	c.Assume("a mutated msgpack vote accepted by the StatelessEncoder is held to the exact round-trip only when it is canonical msgpack (Encode(Decode(x)) == x)")
 
-	ncases := c.N(40, 600)
+	ncases := c.N(40, 1500)
 	for i := 0; i < ncases && c.Violations() < 20; i++ {
 		r := c.Rand(4, uint64(i))
 		size := tableSizes[r.Intn(len(tableSizes))]
